@@ -2,7 +2,7 @@
 
 Translated (Python ast -> Gallina over `string`, fail closed):
   normalize_path table_path path      GarbageCollector._normalize_path        (whole body)
-  marker_fallback basename            GarbageCollector._marker_targets        (statements before the `try`:
+  marker_fallback marker_path basename GarbageCollector._marker_targets       (statements before the `try`:
                                       the paths protected when a marker's payload is unusable; the older
                                       single-path `_marker_target` shape is accepted too)
   register_marker_path file_path      Transaction._register_inflight          (marker key written for a file)
@@ -316,6 +316,9 @@ GOLDEN_SKELETONS = {
     "_marker_targets": [
         "set:name set:fallback try{ call:storage.read_file set:payload set:target }except:Name('Exception', Load()){ return } "
         "if{ return }else{ } call:_normalize_path return",
+        # (the pure assignments before the `try` are what marker_fallback is TRANSLATED from; the pinned part is the rest)
+        "set:name set:prefix set:keyed set:fallback try{ call:storage.read_file set:payload set:target }except:Name('Exception', Load()){ return } "
+        "if{ return }else{ } call:_normalize_path return",
     ],
     "_gc_prefix": [
         "set:deleted_count call:time.time set:cutoff_time try{ call:storage.list_files set:all_files }except:Name('Exception', Load()){ raise:GarbageCollectionAborted } "
@@ -473,7 +476,7 @@ def json_missing_section_reads_empty(fm: ast.Module, name: str) -> bool:
 
 
 # ----------------------------------------------------------------------------- generator
-def marker_fallback_term(fn: ast.FunctionDef) -> str:
+def marker_fallback_term(fn: ast.FunctionDef, consts: Optional[Dict[str, str]] = None) -> str:
     """The statements before the `try:` of _marker_targets define `fallback` (a str or a set of str)."""
     body = strip_docstring(fn.body)
     pre: List[ast.stmt] = []
@@ -483,18 +486,23 @@ def marker_fallback_term(fn: ast.FunctionDef) -> str:
         pre.append(s)
     else:
         raise Unsupported(f"{fn.name}: no try block")
-    env = Env({"basename": "basename_", "marker_path": "marker_path"})
+    env = Env({"basename": "basename_", "marker_path": "marker_path"}, consts or {})
     lets: List[Tuple[str, str]] = []
     fallback: Optional[str] = None
+
+    def paths(v: ast.expr) -> str:
+        """a set display of str, a str, or `<set> if <condition> else <set>` -> list string"""
+        if isinstance(v, ast.Set):
+            return "[" + "; ".join(sexpr(e, env) for e in v.elts) + "]"
+        if isinstance(v, ast.IfExp):
+            return f"(if {bexpr(v.test, env)} then {paths(v.body)} else {paths(v.orelse)})"
+        return "[" + sexpr(v, env) + "]"
     for s in pre:
         if not (isinstance(s, ast.Assign) and len(s.targets) == 1 and isinstance(s.targets[0], ast.Name)):
             raise Unsupported(f"{fn.name}: statement before try not an assignment: {dump(s)}")
         name = s.targets[0].id
         if name == "fallback":
-            if isinstance(s.value, ast.Set):
-                fallback = "[" + "; ".join(sexpr(e, env) for e in s.value.elts) + "]"
-            else:
-                fallback = "[" + sexpr(s.value, env) + "]"
+            fallback = paths(s.value)
         else:
             lets.append((name, sexpr(s.value, env)))
             env = env.bind(name)
@@ -652,7 +660,7 @@ def gen_norm(src: str) -> str:
         mt = find_function(gc, "_marker_target", cls="GarbageCollector")
     if [a.arg for a in mt.args.args] != ["self", "marker_path", "basename"]:
         raise Unsupported(f"{mt.name} signature changed")
-    fallback_term = marker_fallback_term(mt)
+    fallback_term = marker_fallback_term(mt, {"INFLIGHT_PATH": "INFLIGHT_PATH"})
 
     reg = find_function(tx, "_register_inflight", cls="Transaction")
     if [a.arg for a in reg.args.args] != ["self", "file_path"]:
@@ -711,7 +719,7 @@ Definition normalize_path (table_path path : string) : string :=
   {norm_term}.
 
 (* {mt.name}: the paths protected when the marker's payload cannot be used *)
-Definition marker_fallback (basename_ : string) : list string :=
+Definition marker_fallback (marker_path basename_ : string) : list string :=
   {fallback_term}.
 
 (* Transaction._register_inflight(file_path): key of the marker written, and the payload's "file_path" *)
